@@ -39,6 +39,10 @@ type sourceFragment struct {
 	program            *analysis.ProgramInfo
 	simpleCheckpoint   factstore.FactStoreWithRemove
 	temporalCheckpoint factstore.TemporalFactStore
+	// The predicates that were known before this fragment was pushed.
+	// program.Decls cannot tell what this fragment contributed, since it
+	// also contains every previously known predicate.
+	knownCheckpoint map[ast.PredicateSym]ast.Decl
 }
 
 // Interpreter is an interactive interpreter.
@@ -410,10 +414,16 @@ func (i *Interpreter) Preload(units []parse.SourceUnit, store factstore.FactStor
 
 func (i *Interpreter) pushSourceFragment(pathset string, units []parse.SourceUnit, programInfo *analysis.ProgramInfo) {
 	i.src = append(i.src, pathset)
-	i.sourceFragments[pathset] = &sourceFragment{units, programInfo, i.simpleStore, i.temporalStore}
-	for _, decl := range programInfo.Decls {
-		i.knownPredicates[decl.DeclaredAtom.Predicate] = *decl
+	i.sourceFragments[pathset] = &sourceFragment{units, programInfo, i.simpleStore, i.temporalStore, i.knownPredicates}
+	// The checkpoint map is left untouched; the fragment's declarations go into a copy.
+	knownPredicates := make(map[ast.PredicateSym]ast.Decl, len(i.knownPredicates)+len(programInfo.Decls))
+	for sym, decl := range i.knownPredicates {
+		knownPredicates[sym] = decl
 	}
+	for _, decl := range programInfo.Decls {
+		knownPredicates[decl.DeclaredAtom.Predicate] = *decl
+	}
+	i.knownPredicates = knownPredicates
 	i.simpleStore = factstore.NewTeeingStore(i.simpleStore)
 	i.temporalStore = factstore.NewTeeingTemporalStore(i.temporalStore)
 	i.updateCombinedStore()
@@ -451,9 +461,7 @@ func (i *Interpreter) popSourceFragment() *sourceFragment {
 	f := i.sourceFragments[path]
 	i.src = i.src[:l-1]
 	delete(i.sourceFragments, path)
-	for _, decl := range f.program.Decls {
-		delete(i.knownPredicates, decl.DeclaredAtom.Predicate)
-	}
+	i.knownPredicates = f.knownCheckpoint
 	i.simpleStore = f.simpleCheckpoint
 	i.temporalStore = f.temporalCheckpoint
 	i.updateCombinedStore()
